@@ -16,9 +16,9 @@ PROPERTY = 'C16'
 BOUNDS = ("Call sequences over the alphabet {uses(c1|c2|p|[c2,p]|c1-again|42), create_container(new|existing name), "
           "create_solution(new|existing name|declared container solvent|undeclared container solvent), "
           "create_solution_from(declared|undeclared source), transfer(c1->c2|c1->p[1,:]|undeclared source|undeclared "
-          "destination), remove, dilute, fill_to (declared|undeclared), start_stage(s1|s2), end_stage(s1|s2|all), bake} "
+          "destination), remove, dilute (plain|with new_name), fill_to (declared|undeclared), start_stage(s1|s2), end_stage(s1|s2|all), bake} "
           "on the real Recipe object, explored breadth first to a fixpoint of the abstract state (locked, open stage, "
-          "closed stages, declared names, names touched by steps, min(#steps, 2)); quick stops at depth 4 (387 states), thorough "
+          "closed stages, declared names, names touched by steps, min(#steps, 2), whether a step renames its result); quick stops at depth 4 (387 states), thorough "
           "runs to the fixpoint (reached at depth <= 12, 1292 abstract states). Each (representative history, call) pair is executed symbolically with "
           "every step quantity symbolic in [1e-3, 1e4] uL, so both outcomes of bake are explored; after a successful "
           "bake the whole alphabet is applied again and the three tracking queries are compared before/after.")
@@ -35,7 +35,7 @@ CALLS = ['uses:c1', 'uses:c2', 'uses:p', 'uses:[c2,p]', 'uses:42',
          'create_solution:s', 'create_solution:c1', 'create_solution:s@c1', 'create_solution:s@x',
          'create_solution_from:c1', 'create_solution_from:x',
          'transfer:c1>c2', 'transfer:c1>p', 'transfer:x>c2', 'transfer:c1>x',
-         'remove:c2', 'remove:x', 'dilute:c1', 'dilute:x', 'fill_to:c2', 'fill_to:x',
+         'remove:c2', 'remove:x', 'dilute:c1', 'dilute:c1@renamed', 'dilute:x', 'fill_to:c2', 'fill_to:x',
          'start_stage:s1', 'start_stage:s2', 'end_stage:s1', 'end_stage:s2', 'end_stage:all',
          'bake']
 
@@ -43,11 +43,11 @@ CALLS = ['uses:c1', 'uses:c2', 'uses:p', 'uses:[c2,p]', 'uses:42',
 # ---- reference automaton --------------------------------------------------------------------------------------
 def initial():
     return {'locked': False, 'open': None, 'closed': frozenset(), 'declared': frozenset(), 'touched': frozenset(),
-            'nsteps': 0}
+            'nsteps': 0, 'renaming': False}
 
 
 def key(st):
-    return (st['locked'], st['open'], st['closed'], st['declared'], st['touched'], min(st['nsteps'], 2))
+    return (st['locked'], st['open'], st['closed'], st['declared'], st['touched'], min(st['nsteps'], 2), st['renaming'])
 
 
 def ref_step(st, call):
@@ -117,8 +117,11 @@ def ref_step(st, call):
         st['nsteps'] += 1
         return done()
     if op in ('remove', 'dilute', 'fill_to'):
+        arg, _, new_name = arg.partition('@')
         if arg not in dec:
             return 'ValueError', st
+        if new_name:
+            st['renaming'] = True       # the result is renamed; the recipe keeps addressing it by its declared name
         touched.add(arg)
         st['nsteps'] += 1
         return done()
@@ -189,7 +192,8 @@ class World:
             elif op == 'remove':
                 rec.remove(self.obj(arg), self.water)
             elif op == 'dilute':
-                rec.dilute(self.obj(arg), self.salt, '0.5 M', self.water)
+                name, _, new_name = arg.partition('@')
+                rec.dilute(self.obj(name), self.salt, '0.5 M', self.water, new_name or None)
             elif op == 'fill_to':
                 rec.fill_to(self.obj(arg), self.water, f"{qv} uL")
             elif op == 'start_stage':
